@@ -68,6 +68,14 @@ CHECKS.update({
 })
 
 CHECKS.update({
+    "C08": ("exploration",
+            "schedule enumeration and generation at lock granularity (patched parking_lot + controlled scheduler): complete single-preemption enumeration over all ordered operation pairs, generated multi-preemption schedules; deadlock candidates confirmed with the real blocking lock primitives",
+            "Part pairs: every ORDERED pair of a 22-operation catalogue (insert new / overwrite hot / overwrite cold, delete hot / cold, point read, read with metadata, bulk read, search, cached search, batch search, metadata update, drain, snapshot, engine / hot-tier / cache statistics, batch delete, filtered delete, bulk load, exists, filter ids) on a pre-populated persistent TieredEngine (snapshot interval 3, rotation at 300 bytes) x cache strategy x engine shape x EVERY scheduling decision of the non-preemptive run at which the other thread could be chosen (complete at preemption bound 1; blocking switches are free): ~37k schedules in the quick tier. Part schedules: 2-3 threads x 1-3 operations x 1-4 generated preemptions x 5 cache strategies x 3 engine shapes. Oracle: all threads finish; a state with no runnable thread is re-tried by every parked thread with the real timed blocking acquisition at the same time and reported only if all time out.",
+            "Scheduling points are lock acquisitions, releases and API-call boundaries; code between two lock operations runs un-interleaved. Writer preference of parking_lot's RwLock (a waiting writer blocks new readers) is modelled and confirmed on the real lock. tokio spawn_blocking workers (timed search) and rayon workers are not controlled. Preemption bound 2+ is sampled, not enumerated.",
+            "DESIGN.md §3 C08, §2.5"),
+})
+
+CHECKS.update({
     "C14": ("exploration",
             "model-based property testing through the real server binary (reference count per tenant, admission oracle at the boundary) + racing client pairs followed by an admission probe",
             "Part sequence: one tenant with limit 3..6; generated Insert (new/existing/invalid), BulkInsert and BulkLoadHnsw (duplicates, existing+new, invalid items), Delete of present/absent ids, BatchDelete by ids (duplicates, foreign ids) and by filter, FlushHotTier, SIGTERM and SIGKILL restarts. After EVERY RPC: admission outcome vs model count, BulkQuery census == model, /usage vector_count == live count; at the end fill to the limit (each insert must be admitted) and one more must be RESOURCE_EXHAUSTED, so a drifted counter is visible through admission alone. Part race: two real clients race insert||delete, overwrite||batch-delete, bulk-insert||delete on the same ids for 150-650 rounds, then census + the same final probe.",
